@@ -135,6 +135,10 @@ mut("C04 divisor indexed by the parent graph", [(PRE, "                        /
 mut("C04 base case returns zero", [(PRE, "            let j_function = 1.0;\n            table[subgraph_id.id].j_function = Some(j_function);", "            let j_function = 0.0;\n            table[subgraph_id.id].j_function = Some(j_function);")], C04="C04-a")
 mut("C04 gamma of dod replaced by gamma of dod+1", [(PRE, "let gamma_omega = gamma(tropical_graph.dod);", "let gamma_omega = gamma(tropical_graph.dod + 1.0);")], C04="C04-b")
 
+mut("C04 table allocated for one edge more", [(PRE, "let powerset_size = 2usize.pow(num_edges as u32);", "let powerset_size = 2usize.pow(num_edges as u32 + 1);")], C04="C04-")
+mut("C04 last entry dropped before the normalisation is read", [(PRE, "            .map(OptionTropicalSubgraphTableEntry::to_entry)\n            .collect_vec();", "            .map(OptionTropicalSubgraphTableEntry::to_entry)\n            .take(powerset_size - 1)\n            .collect_vec();")], C04="C04-")
+mut("C04 N: powerset size by shift", [(PRE, "let powerset_size = 2usize.pow(num_edges as u32);", "let powerset_size = 1usize << num_edges;")], C04=None, C03=None, C05=None)
+
 # ---- C20 ----
 mut("C20 exp becomes exp2", [(FLO, "        f64::exp(*self)", "        f64::exp2(*self)")], C20="C20-a")
 mut("C20 abs becomes identity", [(FLO, "        f64::abs(*self)", "        *self")], C20="C20-a")
